@@ -151,56 +151,13 @@ Definition lit_true : str := B [116;114;117;101].
 Definition lit_false : str := B [102;97;108;115;101].
 Definition lit_null : str := B [110;117;108;108].
 
+(* value / array elements / object members: mutually recursive on one fuel.  Invariant
+   [2 * length s + 2 <= fuel] on entry of pvalue: every step either consumes a byte or passes from an
+   elements / members loop to the value at the same position, so the fuel cannot run out. *)
 Fixpoint pvalue (fuel : nat) (s : str) : option (jval * str) :=
   match fuel with
   | 0 => None
   | S f =>
-    let elems := fix elems (k : nat) (s : str) (acc : list jval) : option (list jval * str) :=
-      match k with
-      | 0 => None
-      | S k' =>
-        match pvalue f s with
-        | Some (v, r) =>
-          match skip_ws r with
-          | c :: r' => if nb c =? 44 then elems k' r' (v :: acc)
-                       else if nb c =? 93 then Some (rev (v :: acc), r')
-                       else None
-          | [] => None
-          end
-        | None => None
-        end
-      end in
-    let members := fix members (k : nat) (s : str) (acc : list (str * jval)) : option (list (str * jval) * str) :=
-      match k with
-      | 0 => None
-      | S k' =>
-        match skip_ws s with
-        | q :: r0 =>
-          if nb q =? 34 then
-            match pstring (S f) r0 [] with
-            | Some (key, r1) =>
-              match skip_ws r1 with
-              | c :: r2 =>
-                if nb c =? 58 then
-                  match pvalue f r2 with
-                  | Some (v, r3) =>
-                    match skip_ws r3 with
-                    | d :: r4 => if nb d =? 44 then members k' r4 ((key, v) :: acc)
-                                 else if nb d =? 125 then Some (rev ((key, v) :: acc), r4)
-                                 else None
-                    | [] => None
-                    end
-                  | None => None
-                  end
-                else None
-              | [] => None
-              end
-            | None => None
-            end
-          else None
-        | [] => None
-        end
-      end in
     match skip_ws s with
     | [] => None
     | c :: r =>
@@ -208,13 +165,13 @@ Fixpoint pvalue (fuel : nat) (s : str) : option (jval * str) :=
       if n =? 123 then
         match skip_ws r with
         | d :: r' => if nb d =? 125 then Some (JObj [], r')
-                     else match members (S f) r [] with Some (ms, r2) => Some (JObj ms, r2) | None => None end
+                     else match pmembers f r [] with Some (ms, r2) => Some (JObj ms, r2) | None => None end
         | [] => None
         end
       else if n =? 91 then
         match skip_ws r with
         | d :: r' => if nb d =? 93 then Some (JArr [], r')
-                     else match elems (S f) r [] with Some (vs, r2) => Some (JArr vs, r2) | None => None end
+                     else match pelems f r [] with Some (vs, r2) => Some (JArr vs, r2) | None => None end
         | [] => None
         end
       else if n =? 34 then
@@ -230,11 +187,57 @@ Fixpoint pvalue (fuel : nat) (s : str) : option (jval * str) :=
            | None => None
            end
     end
+  end
+with pelems (fuel : nat) (s : str) (acc : list jval) : option (list jval * str) :=
+  match fuel with
+  | 0 => None
+  | S f =>
+    match pvalue f s with
+    | Some (v, r) =>
+      match skip_ws r with
+      | c :: r' => if nb c =? 44 then pelems f r' (v :: acc)
+                   else if nb c =? 93 then Some (rev (v :: acc), r')
+                   else None
+      | [] => None
+      end
+    | None => None
+    end
+  end
+with pmembers (fuel : nat) (s : str) (acc : list (str * jval)) : option (list (str * jval) * str) :=
+  match fuel with
+  | 0 => None
+  | S f =>
+    match skip_ws s with
+    | q :: r0 =>
+      if nb q =? 34 then
+        match pstring (S f) r0 [] with
+        | Some (key, r1) =>
+          match skip_ws r1 with
+          | c :: r2 =>
+            if nb c =? 58 then
+              match pvalue f r2 with
+              | Some (v, r3) =>
+                match skip_ws r3 with
+                | d :: r4 => if nb d =? 44 then pmembers f r4 ((key, v) :: acc)
+                             else if nb d =? 125 then Some (rev ((key, v) :: acc), r4)
+                             else None
+                | [] => None
+                end
+              | None => None
+              end
+            else None
+          | [] => None
+          end
+        | None => None
+        end
+      else None
+    | [] => None
+    end
   end.
 
 (* a complete JSON text: one value, surrounded by white space only *)
 Definition jparse (s : str) : option jval :=
-  match pvalue (S (length s)) s with
+  match pvalue (2 * length s + 2) s with
   | Some (v, r) => match skip_ws r with [] => Some v | _ => None end
   | None => None
   end.
